@@ -97,17 +97,22 @@ def encode_file(rec):
     nz = len(levels)
     sfcnames = list(rec['sfc'])
     upnames = list(rec['upper'])
+    # optionally each upper level carries its own subset of the upper variables
+    lev_names = rec.get('level_names') or [upnames] * (nz - 1)
+
+    def names_at(li):
+        return sfcnames if li == 0 else [n for n in upnames if n in lev_names[li - 1]]
     for ti, (yy, mm, dd, hh) in enumerate(rec['times']):
         tstr = '%02d%02d%02d%02d%2d' % (yy, mm, dd, hh, 0)
         packed = {}
         for name in sfcnames:
             packed[(0, name)] = serial_pack(rec['sfc'][name][ti])
         for li in range(1, nz):
-            for name in upnames:
+            for name in names_at(li):
                 packed[(li, name)] = serial_pack(rec['upper'][name][ti][li - 1])
         defs = ''
         for li, lv in enumerate(levels):
-            names = sfcnames if li == 0 else upnames
+            names = names_at(li)
             defs += _lvltxt(lv) + '%2d' % len(names)
             for name in names:
                 defs += '%-4s%3d ' % (name, packed[(li, name)][4])
@@ -128,7 +133,7 @@ def encode_file(rec):
         assert len(index) == recl, 'grid too small for the index record'
         out += index.encode('ascii')
         for li in range(nz):
-            names = sfcnames if li == 0 else upnames
+            names = names_at(li)
             for name in names:
                 data, prec, nexp, var1, ksum = packed[(li, name)]
                 lab = '%s%2d%2s%-4s%4d%14.7E%14.7E' % (tstr, li, gridtxt, name, nexp, prec, var1)
